@@ -95,12 +95,12 @@ def op_kind(op: Sequence[Any]) -> str:
 def variant(name: str, *, backend: str = "local", layout: str = "abs", loc: str = "tbl", spelling: str = "absolute",
             clock: str = "TICK", props: bool = False, base: Sequence[Op] = (), depth: int = 3,
             alphabet: Sequence[Op] = FULL_ALPHABET, max_open: int = 2, dedupe: bool = True,
-            props_late: bool = False) -> Dict[str, Any]:
+            props_late: bool = False, tz: Optional[str] = None) -> Dict[str, Any]:
     """props_late: the retention / metadata-log properties are committed AFTER the base history, i.e. lowered on a
     live table whose snapshot list and metadata log are already longer than the new bounds."""
     return {"name": name, "backend": backend, "layout": layout, "loc": loc, "spelling": spelling, "clock": clock,
             "props": props, "base": [tuple(o) for o in base], "depth": depth, "alphabet": [tuple(o) for o in alphabet],
-            "max_open": max_open, "dedupe": dedupe, "props_late": props_late}
+            "max_open": max_open, "dedupe": dedupe, "props_late": props_late, "tz": tz}
 
 
 # ---------------------------------------------------------------------------
@@ -806,12 +806,28 @@ class Session:
         self.store = make_store(v, self.workdir)
 
     def __enter__(self) -> "Session":
+        # host time zone of the process under test (POSIX TZ string, e.g. "XXX-14" = UTC+14); ages and timestamps
+        # must not depend on it
+        self._tz_saved = os.environ.get("TZ")
+        if self.v.get("tz"):
+            import time as _t
+
+            os.environ["TZ"] = self.v["tz"]
+            _t.tzset()
         self.store.__enter__()
         return self
 
     def __exit__(self, *a: Any) -> None:
         self.store.__exit__(None, None, None)
         shutil.rmtree(self.workdir, ignore_errors=True)
+        if self.v.get("tz"):
+            import time as _t
+
+            if self._tz_saved is None:
+                os.environ.pop("TZ", None)
+            else:
+                os.environ["TZ"] = self._tz_saved
+            _t.tzset()
 
     def open(self) -> Any:
         from datashard import load_table
